@@ -262,9 +262,13 @@ CHECKS["C19"] = dict(
                bounds="every one of the 79 tests of compliance.TestSuite, alone, on a fresh conformant server (the real server.Server incl. its three Modify goroutines, the real client incl. sender/receiver goroutines, fluent, chk; joined by in-memory streams), with the suite's starting election id ANY value in [1, 2^62), the default instance's name ANY string and the VRF name ANY other string (both different from the suite's 'nonexistent' name; the server's RIB is built with those names); shuffles (rand.Shuffle) are symbolic permutations; deterministic schedule"),
           dict(pkg="compliance", harness="VfC19_pairs", reach=["end", "different-server-mode"], initpkg=_C19I, validate=2, watchdog_s=100, opts=dict(maxsleeps=8000, maxsteps=80000000),
                bounds="every ORDERED PAIR of tests (79 x 79, pairs needing different server modes excluded) back to back on ONE long-lived server, same symbolic configuration: both verdicts as specified (order dependence between two tests; longer permutations are outside)"),
+          dict(pkg="compliance", harness="VfC19_suite", reach=["end"], initpkg=_C19I, validate=0, watchdog_s=400, opts=dict(maxsleeps=400000, maxsteps=2000000000),
+               bounds="the WHOLE suite (79 tests) test after test on ONE long-lived server (one per server mode), in file order and in reverse file order, same symbolic configuration"),
+          dict(pkg="compliance", harness="VfC19_suiteRot", reach=["end"], quick=dict(skip=True), initpkg=_C19I, validate=0, watchdog_s=400, opts=dict(maxsleeps=400000, maxsteps=2000000000),
+               bounds="as suite, in every rotation of the file order, forwards and backwards (158 of the 79! permutations)"),
           dict(pkg="compliance", harness="VfC19_faulty", reach=["end", "judged", "not-written-for-this-requirement"], initpkg=_C19I, validate=0, watchdog_s=100, opts=dict(maxsleeps=4000, maxsteps=40000000),
                bounds="catalogue of 8 single-requirement faulty servers (the reference server behind a message filter: no FIB acks; DELETE of an absent entry fails; Get leaves out the last entry; Flush answers OK without flushing; election id reported with a wrong high word; repeated SessionParameters acknowledged; operations with a stale / unannounced election id programmed; Flush of one instance flushes all) x every test written for the broken requirement (by the suite's own Requires* flags and test documentation): the test must FAIL, for every symbolic configuration; timeouts of the client are modelled by virtual time")],
-    assumptions=["PARTIAL: decided are (a) every test alone and every ordered pair of tests on one server, for every starting election id in [1, 2^62) and every pair of instance names, (b) the 8-member fault catalogue; permutations of three and more tests, other faults, and the real gRPC transport / TLS / device wrapper are OUTSIDE",
+    assumptions=["PARTIAL: decided are (a) every test alone and every ordered pair of tests on one server, for every starting election id in [1, 2^62) and every pair of instance names, (b) the 8-member fault catalogue; permutations of three and more tests other than the file order, its reverse and (thorough) their rotations, other faults, and the real gRPC transport / TLS / device wrapper are OUTSIDE",
                  "client and server are joined by in-memory streams (channels) written in the harness: a Send after the handler returned yields io.EOF and Recv the handler's status, as gRPC does; Get runs the handler to completion before the client reads",
                  "context.WithTimeout / WithCancel are modelled on the engine's virtual clock: time advances by time.Sleep and jumps to the next deadline only when no goroutine can make progress otherwise (the suite's one-minute timeouts are long relative to processing)",
                  "one schedule per path (deterministic, switching at synchronisation points); scheduling is C10/C11/C14's subject",
